@@ -5,21 +5,21 @@
 # against the patched sources through VERIF_OVERLAY and records everything in seeded/<ID>/meta.json.
 id="$1"; demo="$2"; shift 2; checks="${*:-$id}"
 export GOFLAGS=-mod=mod GOPROXY=off GOSUMDB=off GOTOOLCHAIN=local
-V=/verif; src=/tmp/seed/$id/SEED; dst=$V/seeded/$id; wt=/tmp/sv/$id
+name="${SEED_NAME:-$id}"; V=/verif; src="${SEED_SRC:-/tmp/seed/$id/SEED}"; dst=$V/seeded/$name; wt=/tmp/sv/$name
 [ -f "$src/patch.diff" ] || { echo "no $src/patch.diff"; exit 2; }
 mkdir -p "$dst" /tmp/sv; rm -rf "$dst"/*; cp -r "$src"/* "$dst"/ ; rm -f "$dst"/*.log
 git -C /repo worktree remove --force "$wt" 2>/dev/null; git -C /repo worktree add -q --detach "$wt" HEAD || exit 2
 cp -r "$src" "$wt/SEED"
 cd "$wt"
-clean_rc=0; ( eval "$demo" ) > /tmp/sv/$id.clean.log 2>&1 || clean_rc=$?
-if ! git apply --exclude='SEED/*' "$dst/patch.diff" 2>/tmp/sv/$id.apply.log; then echo "PATCH DOES NOT APPLY to current HEAD"; cat /tmp/sv/$id.apply.log | head -5; applies=false; else applies=true; fi
-build_rc=0; go build ./... > /tmp/sv/$id.build.log 2>&1 || build_rc=$?
-mut_rc=0; ( eval "$demo" ) > /tmp/sv/$id.mut.log 2>&1 || mut_rc=$?
+clean_rc=0; ( eval "$demo" ) > /tmp/sv/$name.clean.log 2>&1 || clean_rc=$?
+if ! git apply --exclude='SEED/*' "$dst/patch.diff" 2>/tmp/sv/$name.apply.log; then echo "PATCH DOES NOT APPLY to current HEAD"; cat /tmp/sv/$name.apply.log | head -5; applies=false; else applies=true; fi
+build_rc=0; go build ./... > /tmp/sv/$name.build.log 2>&1 || build_rc=$?
+mut_rc=0; ( eval "$demo" ) > /tmp/sv/$name.mut.log 2>&1 || mut_rc=$?
 rm -rf "$wt/SEED"; find "$wt" -name 'zz_seed*_test.go' -delete
 suite=$($V/tools/repotest.sh "$wt" 2>&1 | tail -4)
 suite_ok=false; echo "$suite" | grep -q "SUITE-OK" && suite_ok=true
 # overlay of the changed files for the checks
-ov=/tmp/sv/$id.ov.json
+ov=/tmp/sv/$name.ov.json
 python3 - "$wt" "$ov" <<'PY'
 import subprocess, sys, json, os
 wt, ov = sys.argv[1], sys.argv[2]
@@ -43,18 +43,19 @@ for c in $checks; do
   echo "CHECK $c: exit=$rc violations=$nv $first"
   results=$(python3 -c "import json,sys; d=json.loads(sys.argv[1]); d[sys.argv[2]]={'exit':int(sys.argv[3]),'violation_lines':int(sys.argv[4]),'first_signatures':sys.argv[5]}; print(json.dumps(d))" "$results" "$c" "$rc" "$nv" "$first")
 done
-python3 - "$id" "$demo" "$clean_rc" "$mut_rc" "$build_rc" "$suite_ok" "$applies" "$results" <<'PY'
+python3 - "$id:$name" "$demo" "$clean_rc" "$mut_rc" "$build_rc" "$suite_ok" "$applies" "$results" <<'PY'
 import json, sys, subprocess
-id, demo, clean_rc, mut_rc, build_rc, suite_ok, applies, results = sys.argv[1:9]
+idname, demo, clean_rc, mut_rc, build_rc, suite_ok, applies, results = sys.argv[1:9]
+id, name = idname.split(":")
 props = {json.loads(l)["id"]: json.loads(l) for l in open("/verif/properties.jsonl")}
-readme = open("/verif/seeded/%s/README.md" % id).read() if __import__("os").path.exists("/verif/seeded/%s/README.md" % id) else ""
+readme = ""
 meta = {
   "property": id, "property_title": props[id]["title"],
   "written_by": "fresh sub-agent given only the property text and its own scratch worktree of /repo (nothing from /verif)",
   "base_commit": subprocess.run(["git","-C","/repo","rev-parse","--short","HEAD"],capture_output=True,text=True).stdout.strip(),
   "needs_to_manifest": "see README.md (written by the sub-agent)",
   "confirmed_by_lead": {
-     "scratch_worktree": "/tmp/sv/%s (removed afterwards)" % id,
+     "scratch_worktree": "/tmp/sv/%s (removed afterwards)" % name,
      "demo_command": demo,
      "demo_exit_on_clean_tree": int(clean_rc), "demo_exit_with_patch": int(mut_rc),
      "patch_applies": applies == "true", "go_build_exit_with_patch": int(build_rc),
@@ -62,7 +63,7 @@ meta = {
   },
   "checks_run_against_it": json.loads(results),
 }
-json.dump(meta, open("/verif/seeded/%s/meta.json" % id, "w"), indent=1)
+json.dump(meta, open("/verif/seeded/%s/meta.json" % name, "w"), indent=1)
 print("meta:", json.dumps(meta["confirmed_by_lead"]))
 PY
-git -C /repo worktree remove --force "$wt"; rm -rf /tmp/sv/$id.ov.json.d
+git -C /repo worktree remove --force "$wt"; rm -rf /tmp/sv/$name.ov.json.d
